@@ -46,6 +46,8 @@ func (p *Provider[A]) SetAmmos(ammos []A) {
 func (p *Provider[A]) Run(ctx context.Context, deps core.ProviderDeps) error {
 	const op = "scenario.Provider.Run"
 	p.Deps = deps
+	// Closed sink means for Acquire callers, that ammo is finished.
+	defer close(p.sink)
 
 	length := uint(len(p.ammos))
 	if length == 0 {
@@ -63,11 +65,12 @@ func (p *Provider[A]) Run(ctx context.Context, deps core.ProviderDeps) error {
 		}
 		i := ammoNum % length
 		passNum = ammoNum / length
+		// Reaching passes or ammo limit is normal finish, not a provider fail.
 		if p.cfg.Passes != 0 && passNum >= p.cfg.Passes {
-			return decoders.ErrPassLimit
+			return nil
 		}
 		if p.cfg.Limit != 0 && ammoNum >= p.cfg.Limit {
-			return decoders.ErrAmmoLimit
+			return nil
 		}
 		ammoNum++
 		ammo := p.ammos[i]
